@@ -167,6 +167,10 @@ def accepts (sw : Sw) (f : Frame) (inPort : Nat) : Bool :=
 def rxOuts (sw : Sw) (f : Frame) (inPort : Nat) (wire : Bytes) : List Out :=
   if accepts sw f inPort then tableOuts sw f inPort (some wire) else []
 
+/-- the same for a packet object handed over without wire bytes: a table miss sends its serialisation -/
+def rxObjOuts (sw : Sw) (f : Frame) (inPort : Nat) : List Out :=
+  if accepts sw f inPort then tableOuts sw f inPort none else []
+
 /-! ## counters -/
 
 def txCount (outs : List Out) (no : Nat) : Nat :=
